@@ -24,7 +24,8 @@ UrlKinds == {"string", "int32", "int64", "uint32", "uint64", "sint32", "sfixed64
 (* The standard RPC shape: p (path), q (optional query), rq (required      *)
 (* query), and b (a body field) on body verbs.                             *)
 (***************************************************************************)
-F(n, k, c, r) == [name |-> n, kind |-> k, card |-> c, rule |-> r]
+F(n, k, c, r) == [name |-> n, kind |-> k, card |-> c, rule |-> r, oneof |-> ""]
+FO(n, k, c, r, o) == [name |-> n, kind |-> k, card |-> c, rule |-> r, oneof |-> o]
 \* x = TRUE adds the validated message-typed fields n (singular), items (repeated), m (map)
 FieldsFor(v, x) == IF ~HasBody(v) THEN <<"p", "q", "rq">>
                    ELSE IF x THEN <<"p", "q", "rq", "b", "n", "items", "m">> ELSE <<"p", "q", "rq", "b">>
@@ -76,6 +77,26 @@ RQCls == {"good", "missing_required", "malformed"}
 C02Requests ==
   { Mk(Rpc(v, "int32", <<>>), <<>>, Url(a, b, c), Body(sh, ct), <<>>, OkHandler, NoHook) :
       v \in Verbs, a \in PCls, b \in QCls, c \in RQCls, sh \in BodyShapes, ct \in {"json", "proto"} }
+
+\* URL-bound fields of other shapes: q as proto3 optional / repeated / member of a oneof (whose
+\* other member "alt" is a query parameter too), p as proto3 optional
+QShapes == {"opt", "rep", "oneof"}
+RpcShape(v, k, qs, ps) ==
+  LET pf == IF ps = "opt" THEN F("p", k, "opt", "") ELSE F("p", k, "one", "")
+      qf == CASE qs = "opt" -> <<F("q", k, "opt", "")>> [] qs = "rep" -> <<F("q", k, "rep", "")>>
+              [] qs = "oneof" -> <<FO("q", k, "one", "", "sel"), FO("alt", "string", "one", "", "sel")>>
+              [] OTHER -> <<F("q", k, "one", "")>>
+      fds == <<pf>> \o qf \o <<F("rq", k, "one", "")>> \o (IF HasBody(v) THEN <<F("b", "string", "one", "max5")>> ELSE <<>>)
+  IN [name |-> "M", verb |-> v, fields |-> [i \in DOMAIN fds |-> fds[i].name], fdefs |-> fds, pathVars |-> <<"p">>,
+      query |-> <<[field |-> "q", name |-> "q", required |-> FALSE], [field |-> "rq", name |-> "rq", required |-> TRUE]>>
+                \o (IF qs = "oneof" THEN <<[field |-> "alt", name |-> "alt", required |-> FALSE]>> ELSE <<>>),
+      hdrs |-> <<>>]
+UrlX(pc_, qc, rqc, qs) == Url(pc_, qc, rqc) \o (IF qs = "oneof" THEN <<[field |-> "alt", loc |-> "query", cls |-> "absent", tok |-> "U_alt"]>> ELSE <<>>)
+C02ShapeRequests ==
+  { Mk(RpcShape(v, "int32", qs, "one"), <<>>, UrlX("good", b, "good", qs), Body(sh, ct), <<>>, OkHandler, NoHook) :
+      v \in Verbs, qs \in QShapes, b \in QCls, sh \in BodyShapes, ct \in {"json", "proto"} }
+  \cup { Mk(RpcShape(v, "int32", "one", "opt"), <<>>, Url(a, "good", "good"), Body(sh, ct), <<>>, OkHandler, NoHook) :
+      v \in Verbs, a \in PCls, sh \in BodyShapes, ct \in {"json", "proto"} }
 
 (***************************************************************************)
 (* C09: declarations x overriding x value classes x body                   *)
@@ -130,7 +151,7 @@ C11Requests ==
   { Mk(Rpc(v, "int32", <<>>), <<>>, GoodUrl, Body(sh, ct), <<>>, OkHandler, NoHook) :
       v \in Verbs, sh \in {"absent", "empty", "emptyobj", "others", "malformed"}, ct \in {"json", "proto", "octet", "none", "other"} }
 
-Requests == CASE Family = "C02" -> C02Requests [] Family = "C09" -> C09Requests
+Requests == CASE Family = "C02" -> C02Requests \cup C02ShapeRequests [] Family = "C09" -> C09Requests
               [] Family = "C10" -> C10Requests [] Family = "C11" -> C11Requests
 
 Init == /\ pc = "idle" /\ req = (CHOOSE r \in Requests : TRUE) /\ bodyRead = FALSE /\ saw = NoSaw
